@@ -247,9 +247,187 @@ func e14Controller(P time.Duration, lr float64, slowAccept bool, closeAt int, vi
 	}}
 }
 
+
+// e14CtxCase: the context is cancelled from inside each of the library's own
+// consultations of it in turn (kit.TrigCtx): a cancellation that coincides
+// with the tick, with the start of a list, with the hand-over of a result.
+// Whatever the instant, the lister/controller must be done promptly.
+func e14CtxCase(target string, P time.Duration, lr float64, seed uint64) Case {
+	id := fmt.Sprintf("E14/ctx-at-consultation/%s/%s/l%.1f/%d", target, P, lr, seed)
+	return Case{ID: id, Desc: map[string]interface{}{"target": target, "period": P.String(), "latency_over_period": lr, "what": "cancel inside the k-th context consultation, every k"}, Bubble: true, Run: func(r *Res) {
+		lat := frac(P, lr)
+		run := func(at int) (calls int, ok bool) {
+			core := kit.NewCore(&kit.Plan{Seed: kit.Mix(seed, uint64(at)), PYield: 100})
+			srv := kit.NewPodServer(core)
+			srv.Put(kit.Pod("n0", "a", "", nil))
+			srv.ListPlan = func(int) kit.ListFault { return kit.ListFault{Latency: lat} }
+			tctx := kit.NewTrigCtx()
+			if at > 0 {
+				tctx.CancelAtCall(at)
+			}
+			var done <-chan struct{}
+			quit := make(chan struct{})
+			defer close(quit)
+			switch target {
+			case "lister":
+				l := kcache.VerifNewLister(tctx, kit.NewLog(core), nil, P, srv)
+				done = l.Done()
+				go func() {
+					for {
+						if _, _, ok := l.Recv(quit); !ok {
+							return
+						}
+					}
+				}()
+			default:
+				g, err := newCtlRigCtx(core, srv, P, nil, tctx, tctx.Cancel)
+				if err != nil {
+					if at > 0 {
+						return 0, true // creation refused on a cancelled context: fine
+					}
+					r.Inc(err.Error())
+					return 0, false
+				}
+				done = g.ctl.Done()
+			}
+			if at == -1 {
+				tctx.Cancel() // (not used)
+			}
+			T := 5 * (P + P/10 + lat + time.Millisecond)
+			select {
+			case <-done:
+			case <-time.After(T):
+			}
+			if at > 0 && !tctx.Fired() {
+				r.Add("trigger-point-not-reached", 1)
+			}
+			tctx.Cancel()
+			if !waitCh(done, virtBound) {
+				where := "at the end of the run"
+				if tctx.Fired() {
+					where = fmt.Sprintf("inside the library's consultation #%d of its context (%s)", at, tctx.FiredIn())
+				}
+				r.V("C13", "shutdown-hang", "%s (P=%v, latency=%v): context cancelled %s: not done %v later\n%s", target, P, lat, where, virtBound, kit.CensusText(kit.Census(), 10))
+				return tctx.Calls(), false
+			}
+			core.Barrier()
+			if gs := kit.Census(); len(gs) > 0 {
+				r.V("C13", "goroutine-leak", "%s: context cancelled inside consultation #%d: %d library goroutines remain: %v\n%s", target, at, len(gs), kit.CensusKeys(gs), kit.CensusText(gs, 5))
+				return tctx.Calls(), false
+			}
+			r.Add("ctx-consultation-shutdowns", 1)
+			return tctx.Calls(), true
+		}
+		n, ok := run(0)
+		if !ok {
+			return
+		}
+		r.Max("ctx-consultations-per-run", int64(n))
+		for at := 1; at <= n; at++ {
+			if _, ok := run(at); !ok {
+				return
+			}
+		}
+		r.Key(id)
+		r.Sample = map[string]interface{}{"consultations": n}
+	}}
+}
+
+// e14DeadCtxCase: created on a context that is already cancelled.
+func e14DeadCtxCase(target string, seed uint64) Case {
+	id := fmt.Sprintf("E14/dead-context/%s/%d", target, seed)
+	return Case{ID: id, Desc: map[string]interface{}{"target": target, "what": "created on an already cancelled context"}, Bubble: true, Run: func(r *Res) {
+		core := kit.NewCore(&kit.Plan{Seed: seed, PYield: 100})
+		srv := kit.NewPodServer(core)
+		srv.Put(kit.Pod("n0", "a", "", nil))
+		ctx, cancel := context.WithCancel(context.Background())
+		cancel()
+		var done <-chan struct{}
+		if target == "lister" {
+			done = kcache.VerifNewLister(ctx, kit.NewLog(core), nil, time.Second, srv).Done()
+		} else {
+			g, err := newCtlRigCtx(core, srv, time.Second, nil, ctx, cancel)
+			if err != nil {
+				r.Add("creation-refused", 1)
+				r.Key(id)
+				return
+			}
+			done = g.ctl.Done()
+		}
+		if !waitCh(done, virtBound) {
+			r.V("C13", "shutdown-hang", "%s created on an already cancelled context is not done %v later\n%s", target, virtBound, kit.CensusText(kit.Census(), 10))
+			return
+		}
+		core.Barrier()
+		if gs := kit.Census(); len(gs) > 0 {
+			r.V("C13", "goroutine-leak", "%s created on a cancelled context: %d library goroutines remain: %v", target, len(gs), kit.CensusKeys(gs))
+		}
+		r.Add("dead-context-cases", 1)
+		r.Key(id)
+	}}
+}
+
+// e14ListErrCase: a list call fails with an error that LOOKS like a shutdown
+// artefact (context.Canceled / DeadlineExceeded, bare or wrapped) although
+// nobody is shutting down.  The controller may stop (C14 says it must), but it
+// must not stay up without ever listing again.
+func e14ListErrCase(P time.Duration, kind int, failAt int, seed uint64) Case {
+	names := []string{"canceled", "wrapped-canceled", "deadline", "wrapped-deadline"}
+	errs := []error{context.Canceled, fmt.Errorf("rate limiter: %w", context.Canceled), context.DeadlineExceeded, fmt.Errorf("http2: %w", context.DeadlineExceeded)}
+	id := fmt.Sprintf("E14/list-fails-like-shutdown/%s/%s/at%d/%d", P, names[kind], failAt, seed)
+	return Case{ID: id, Desc: map[string]interface{}{"period": P.String(), "error": names[kind], "failing_list": failAt}, Bubble: true, Run: func(r *Res) {
+		core := kit.NewCore(&kit.Plan{Seed: seed, PYield: 100})
+		srv := kit.NewPodServer(core)
+		srv.Put(kit.Pod("n0", "a", "", nil))
+		srv.ListPlan = func(i int) kit.ListFault {
+			if i == failAt {
+				return kit.ListFault{Kind: kit.ListErr, Err: errs[kind]}
+			}
+			return kit.ListFault{}
+		}
+		g, err := newCtlRig(core, srv, P, nil)
+		if err != nil {
+			r.Inc(err.Error())
+			return
+		}
+		time.Sleep(time.Duration(failAt+4) * (P + P/5))
+		lists := srv.Lists()
+		stopped := isClosed(g.ctl.Done())
+		r.Add("list-error-cases", 1)
+		if len(lists) < failAt {
+			r.V("C13", "relisting-stopped", "only %d list calls before the planned failure of list #%d", len(lists), failAt)
+		} else if !stopped && len(lists) <= failAt {
+			r.V("C13", "relisting-stopped", "list #%d failed with %q (nobody was shutting down); %v later the controller is still running (Done() open, Error()=%v) and has not issued another list call: it serves a cache it will never refresh again\n%s", failAt, errs[kind], 4*(P+P/5), g.ctl.Error(), kit.CensusText(kit.Census(), 8))
+		}
+		if stopped {
+			r.Add("stopped-after-list-error", 1)
+		} else {
+			r.Add("kept-listing-after-list-error", 1)
+		}
+		g.shutdown(r, "C12")
+		r.Key(id)
+		r.Sample = map[string]interface{}{"lists": len(lists), "stopped": stopped}
+	}}
+}
+
 func init() {
 	register("E14", func(tier string, seed uint64) []Case {
 		var cases []Case
+		for rep := 0; rep < tierPick(tier, 1, 6); rep++ {
+			for _, tg := range []string{"lister", "controller"} {
+				for _, P := range []time.Duration{time.Second, 10 * time.Second} {
+					for _, lr := range []float64{0, 0.5, 1.5} {
+						cases = append(cases, e14CtxCase(tg, P, lr, seed+uint64(rep)*31))
+					}
+				}
+				cases = append(cases, e14DeadCtxCase(tg, seed+uint64(rep)))
+			}
+			for kind := 0; kind < 4; kind++ {
+				for _, at := range []int{1, 2, 4} {
+					cases = append(cases, e14ListErrCase(time.Second, kind, at, seed+uint64(rep)))
+				}
+			}
+		}
 		periods := []time.Duration{time.Second, 10 * time.Second, time.Minute}
 		i := 0
 		for rep := 0; rep < tierPick(tier, 1, 10); rep++ {
